@@ -115,12 +115,17 @@ class NumpyBackendProvider(BackendProvider):
 
         param_names = list(self._collect_params(ir))
         fn_source = f"def _expr({', '.join(param_names)}): return {source}"
-        ns = {'np': np, '_kg_reduce': _kg_reduce}
+        ns = {'np': np, '_kg_reduce': _kg_reduce, '_kg_power': self._kg_power}
         try:
             exec(fn_source, ns)
         except Exception:
             return None
         return (ns['_expr'], var_syms)
+
+    def _kg_power(self, a, b):
+        """The Power verb itself: a whole-valued result is an integer, as in the interpreter."""
+        from ..dyads import eval_dyad_power
+        return eval_dyad_power(a, b, self)
 
     def _ir_to_source(self, ir):
         """Convert IR tree to Python source string with numpy operations."""
@@ -138,7 +143,9 @@ class NumpyBackendProvider(BackendProvider):
             r = self._ir_to_source(right)
             if l is None or r is None:
                 return None
-            py_op = {'+': '+', '-': '-', '*': '*', '%': '/', '^': '**'}.get(op)
+            if op == '^':
+                return f'_kg_power({l},{r})'
+            py_op = {'+': '+', '-': '-', '*': '*', '%': '/'}.get(op)
             if py_op is None:
                 return None
             return f'({l}{py_op}{r})'
